@@ -7,7 +7,7 @@ from vf.core import Suite, coq_list, coq_N, coq_Z
 from vf.gen import pick_weighted
 
 ID = "C37"
-THEOREMS = ["C37_complete", "C37_only_wanted", "C37_nodup", "C37_queue_sorted"]
+THEOREMS = ["C37_complete", "C37_only_wanted", "C37_nodup", "C37_terminates", "C37_queue_sorted"]
 MODEL_FILES = ["RevList.v"]
 MODELLED = ("plumbing/revlist/revlist.go Objects; plumbing/revlist/object_walk.go seedHaves, markTreeSeen, seedWants, "
             "collectAllTreeObjects, walk (painted time-ordered queue, early stop, deferred missing-parent check), propagate, "
